@@ -186,7 +186,12 @@ pub fn debug_gen(pos: &[String]) -> i32 {
 pub fn debug_probe(pos: &[String]) -> i32 {
     let text = std::fs::read_to_string(&pos[1]).unwrap();
     let ts = pos.get(2).map_or(false, |s| s == "ts");
-    let out = if ts { comp::compile_ts(&[text.clone()]) } else { comp::compile_rasn1(&text, &Cfg::from_bits(std::env::var("PROBE_BITS").ok().and_then(|b| b.parse().ok()).unwrap_or(0))) };
+    let out = if ts { comp::compile_ts(&[text.clone()]) } else { {
+        let bits: usize = std::env::var("PROBE_BITS").ok().and_then(|b| b.parse().ok()).unwrap_or(0);
+        let mut cfg = Cfg::from_bits(bits);
+        cfg.opaque_open_types = bits & 8 == 0;
+        comp::compile_rasn1(&text, &cfg)
+    } };
     match out {
         Outcome::Ok(c) => {
             println!("{}", c.generated);
